@@ -1,7 +1,7 @@
 (* C12 — statements only.  Every theorem is proved in Lemmas.v. *)
 From Coq Require Import ZArith List Bool String.
 Import ListNotations.
-From GV Require Import Common.Wire gen.Gen_tables C12.Model C12.Lemmas.
+From GV Require Import Common.Wire gen.Gen_tables gen.Gen_versioned C12.Model C12.Lemmas C12.GenLink.
 Open Scope Z_scope.
 
 (* VersionedDict: for every sequence of operations (valid or invalid assignments, reads): stored versions of each key are
@@ -71,3 +71,28 @@ Theorem patch_targets_in_package_resolve : forall p, In p patches ->
                 (t_in_glue row = true -> t_importable row = true).
 Proof. exact Lemmas.patch_targets_in_package_resolve. Qed.
 Print Assumptions patch_targets_in_package_resolve.
+
+(* ---- tie of the VersionedDict model to the source by translation: vd_setitem_guard is the guard sequence of
+   VersionedDict.__setitem__ REGENERATED from glue/core/state.py on every run (tools/gen/gen_versioned.py) ---- *)
+
+(* the model accepts / rejects an assignment exactly as the translated guards do *)
+Theorem setitem_follows_generated_guard : forall (d : vd) (k ver val : Z),
+  snd (step d (SetItem k (Some ver) val)) =
+  res_of_code (vd_setitem_guard (fun v => has v (versions_seen d k)) ver).
+Proof. exact GenLink.setitem_follows_generated_guard. Qed.
+Print Assumptions setitem_follows_generated_guard.
+
+Theorem setitem_state_follows_generated_guard : forall (d : vd) (k ver val : Z),
+  (vd_setitem_guard (fun v => has v (versions_seen d k)) ver = 0%Z ->
+     fst (step d (SetItem k (Some ver) val)) = update k (versions_seen d k ++ [(ver, val)]) (touch k d)) /\
+  (vd_setitem_guard (fun v => has v (versions_seen d k)) ver <> 0%Z ->
+     fst (step d (SetItem k (Some ver) val)) = d \/ fst (step d (SetItem k (Some ver) val)) = touch k d).
+Proof. exact GenLink.setitem_state_follows_generated_guard. Qed.
+Print Assumptions setitem_state_follows_generated_guard.
+
+(* what the translated guards say: accepted iff version >= 1, the previous version is stored (or version = 1)
+   and the version itself is not: "consecutive from 1, never overwritten" *)
+Theorem generated_guard_spec : forall (has : Z -> bool) (ver : Z),
+  vd_setitem_guard has ver = 0%Z <-> (1 <= ver)%Z /\ (ver = 1%Z \/ has (ver - 1)%Z = true) /\ has ver = false.
+Proof. exact GenLink.generated_guard_spec. Qed.
+Print Assumptions generated_guard_spec.
